@@ -46,7 +46,8 @@ def execute(job):
             N = (lambda x: job.get("names", {}).get(x, x))
             INV = {v: k for k, v in job.get("names", {}).items()}
 
-            ds = xr.Dataset(coords={N("zc"): (N("zc"), np.arange(n) + 0.5), N("zl"): (N("zl"), np.arange(n) * 1.0), N("col"): (N("col"), np.arange(ncol))})
+            zc = real_th[0] if job.get("td_default") else np.arange(n) + 0.5      # the axis coordinate is the default target_data
+            ds = xr.Dataset(coords={N("zc"): (N("zc"), zc), N("zl"): (N("zl"), np.arange(n) * 1.0), N("col"): (N("col"), np.arange(ncol))})
             grid = xgcm.Grid(ds, coords={N("Z"): {"center": N("zc"), "left": N("zl")}}, periodic=False, autoparse_metadata=False)
             first = job["extra_first"]
             dims = (N("col"), N("zc")) if first else (N("zc"), N("col"))
@@ -67,7 +68,10 @@ def execute(job):
                 target = xr.DataArray(np.array(real_lev), dims=[N("col"), N("lev")])
                 kw["target_dim"] = N("lev")
                 exp_dim = "lev"
-            res = grid.transform(da, N("Z"), target, target_data=td, **kw)
+            if job.get("td_default"):
+                res = grid.transform(da.assign_coords({N("zc"): ds[N("zc")]}), N("Z"), target, **kw)
+            else:
+                res = grid.transform(da, N("Z"), target, target_data=td, **kw)
             nd = [d for d in res.dims if d != N("col")]
             newdim = INV.get(nd[0], nd[0]) if len(nd) == 1 else str(nd)
             name = "none" if res.name is None else str(res.name)
@@ -82,7 +86,7 @@ def execute(job):
             recs.append({"id": cid, "ev": "Linear", "via": job["via"], "method": job["method"],
                          "theta": [2 * t for t in job["thetas"][c]], "phi": job["phis"][c], "levels": lv,
                          "mask": bool(job["mask"]), "bypass": bool(job["bypass"]), "target": job.get("target", "-"),
-                         "chunk": bool(job.get("chunk")), "expect_newdim": exp_dim, "expect_name": exp_name,
+                         "chunk": bool(job.get("chunk")), "expect_newdim": exp_dim, "expect_name": exp_name, "td_default": bool(job.get("td_default")),
                          "out": {"k": "values", "v": [[0, 0] if v == "nan" else v for v in (model.enc_rat(float(x)) for x in outs[c])],
                                  "newdim": newdim, "name": name}})
     except Exception as ex:
@@ -133,13 +137,16 @@ def gen_jobs(rng, thorough):
             rng.shuffle(lv)
             return lv
 
+        td_default = via == "grid" and target in ("da1d", "nd") and rng.random() < 0.2
+        if td_default:
+            thetas = [thetas[0] for _ in thetas]         # target_data left out: the axis coordinate, the same for every column
         first = levels()
         lv = [first] + [[rng.choice(range(-2, 2 * T2 + 3)) for _ in first] for _ in range(ncol - 1)] if target == "nd" else [first]
         ids = list(range(cid + 1, cid + 1 + ncol))
         cid += ncol
         jobs.append({"via": via, "method": method, "thetas": thetas, "phis": [[rng.randint(-6, 6) for _ in range(n)] for _ in range(ncol)],
                      "levels": lv, "mask": rng.random() < 0.5, "bypass": bypass, "ids": ids, "seed": cid, "target": target,
-                     "suffix": rng.choice([None, None, "_x", ""]), "chunk": rng.random() < 0.4, "extra_first": rng.random() < 0.5})
+                     "suffix": rng.choice([None, None, "_x", ""]), "chunk": rng.random() < 0.4, "extra_first": rng.random() < 0.5, "td_default": td_default})
     return jobs
 
 
